@@ -379,3 +379,92 @@ _splice("C07", "contiguous follows torch's rule per entry. ",
 _splice("C07", "Lazy stacks, _SubTensorDict, tensorclass, memory-mapped and shared containers are covered by the oracle stream only.",
         "tensorclass, lazy expand / unflatten_keys / split_keys / binary arithmetic / masks on the stack dim, sub.masked_fill_ / apply_ / sub[idx] = v are covered "
         "by the oracle stream only; no per-key view_shares / copy_fresh theorem through windows (no extended-state well-formedness invariant).", "note")
+
+
+def _append(pid, extra, field="text"):
+    CHECKS[pid][field] = CHECKS[pid][field].rstrip() + " " + extra
+
+
+_append("C04", "Lazy stacks of TensorDict members are inside the model for every operation except split_keys and to_dict: the stack's step is exactly its "
+               "members' steps on their slices (or the first raising member's exception, partial effects kept), lifted to histories and to the nested-dict "
+               "replay member by member; get stacks the members' entries (a nested result is the lazy stack of the members' nodes); root key views are the "
+               "sorted intersection of the members' keys; len / in / is_empty agree with iteration for all flags; nested key views raising on a member "
+               "that lacks a nested node (D401) and the pre-merged update (D47) are refuted by witnesses with partial theorems on the complement.")
+_splice("C04", "Lazy stacks (restricted op set) and tensorclass-held tensordicts are checked by the nested-dict oracle only; paths through NonTensorData leaves are excluded.",
+        "Lazy stacks: nested key views and the del / pop / update / filter_empty_ / unflatten refinements are by correspondence only; tensorclass-held "
+        "tensordicts are checked by the nested-dict oracle only; paths through NonTensorData leaves are excluded.", "note")
+
+_append("C05", "A refused unlock_() also leaves the shared / memory-mapped status of every node as it was (theorem; repaired in /repo).")
+
+_splice("C09", "Not proved (differential run only): lazy stacks, unary ops, where, all/any/norm/softmax/logsumexp, reduce=True.",
+        "Lazy stacks are inside the model: the fused binary path on member-indexed keys (for every member count and key order, member i of the result "
+        "holds under k what the key-wise spec gives for (self_i, other_i), with and without default=), member-wise dispatch of a tensor / tensordict "
+        "operand of another batch shape with an element-level index theorem (position jb++jf of member i reads the operand where the dense stack reads "
+        "it, for every stack dim), comparisons, softmax dim translation (refuted for the code before the repair), reductions through the dense copy. "
+        "Not proved (differential run only): unary ops, where, all/any/norm/logsumexp, reduce=True, ternary and in-place ops on lazy stacks.")
+
+_append("C10", "Writer failure is inside the model: tasks return ok | fail, every _memmap_ walk hands each spawned future to its caller (theorem "
+               "`walk_collects_every_future`, checked against the code by recording every future the permuting executor hands out and the list the entry "
+               "point finally waits on), and under collected = spawned the threaded call raises exactly when the inline run does, with the same class, "
+               "for every task list, completion order and obstacle set (the hypothesis is necessary: witness); return_early results re-raise too "
+               "(repaired in /repo; the unrepaired variant is refuted). Tensorclass nodes with their non-tensor fields are part of the codec "
+               "round-trip theorem; load_memmap_ / memmap_refresh_ are transcribed (two theorems, the full refresh statement is differential only). "
+               "A fault-injection stream provokes a failing writer at every leaf and metadata position for every save entry point x num_threads x "
+               "completion order.")
+_splice("C10", "share_non_tensor, jagged nested tensors and existsok=False are not covered.",
+        "share_non_tensor and jagged nested tensors are not covered; make_memmap_merge for nested keys and the full refresh statement are stated, not proved.", "note")
+
+_append("C11", "The consolidated codec is proved for jagged nested tensors (values / lengths / offsets records, several per node, the reader's per-leaf "
+               "reset discipline: a theorem that fails if state leaks from one leaf to the next), lazy stacks and tensorclass nodes at any depth "
+               "(round trip modulo re-locking; refuted for keys that start with a codec marker, finding D116, partial on the complement); the "
+               "assign tasks of consolidate(num_threads > 0) give the single-threaded bytes for every completion order in which each task runs "
+               "(a task that never runs is visible: witness).")
+_splice("C11", "Lazy stacks, jagged tensors, tensorclasses, threaded consolidation and use_buffer are judged by the oracle only.",
+        "Histories on trees with lazy stacks / jagged tensors / tensorclasses, consolidate's own result-building loop for jagged tensors, use_buffer, "
+        "in-place consolidation and nested snapshots are judged by the oracle only.", "note")
+
+_append("C14", "The probabilistic key plumbing is inside the model (ProbabilisticTensorDictModule __init__ / out_keys / log_prob keys / get_dist / "
+               "forward, ProbabilisticTensorDictSequential _requires_sample / forward / get_dist / log_prob): the distribution is built from exactly the "
+               "terms stored under the advertised in_keys, the sample written is the interaction-method term on those parameters, the log-prob keys "
+               "written are the advertised ones in both aggregate modes, _requires_sample holds iff some sample key is not produced by the deterministic "
+               "part, the sequence's forward is its final module's forward on the lifted deterministic result; the module footprint theorem now holds "
+               "without side hypotheses (the copy-out selects exactly the out_keys; the variant before the repair is refuted by a witness); footprint of "
+               "probabilistic modules: partial + refutation (finding D147, pinned by the suite).")
+_splice("C14", "nested-container aliasing, set_skip_existing and the probabilistic key plumbing are covered by the oracle only.",
+        "nested-container aliasing, set_skip_existing, num_samples and return_composite=True are covered by the oracle only.", "note")
+
+_append("C15", "Results of one call own independent non-tensor stores (heap model of the per-result dict(self._non_tensordict) + _from_tensordict: fresh, "
+               "pairwise distinct stores; a set / del on piece i leaves every sibling's and the source's store, reads and invariant unchanged when they wrap "
+               "different tensordict objects; refuted for two handles on one lazy-stack member, finding D183); for cat / stack of ANY number of "
+               "operands the non-tensor value at row r is the value of the operand that owns row r (induction on the operand list; the n-ary "
+               "re-wrap keeping the first operand's store is refuted, finding D182). Aliasing probes (mutate one result, re-read siblings and source) "
+               "and an n-ary row-provenance oracle that does not go through the library's helpers run on every public producer of several results.")
+
+_splice("C16", "Theorems are conditional on the model returning Ok (masks of rank >= 2, writes with None etc. are OutOfModel).",
+        "Indexing covers one advanced index (integer tensor of any rank, or a 1-d mask on the stack dim) anywhere among basic indices; writes cover None "
+        "anywhere in the index; update by a NonTensorData of any batch size into any nesting of stacks and entry-level torch.cat are proved to denote "
+        "the pointwise / side-by-side array. Theorems are conditional on the model returning Ok (masks of rank >= 2 are OutOfModel: finding C16-o).")
+_splice("C16", "Shape ops on stacks, cat/update_, memmap/pickle/to_dict and lazy containers are covered by the oracle run only.",
+        "Shape ops on stacks (finding C16-i), memmap/pickle/to_dict and lazy containers are covered by the oracle run only.", "note")
+
+CHECKS["C18"]["text"] = (
+    "Proof (Coq): for ALL slices/lengths the compile-only _slice_indices equals CPython's slice.indices, and the compile arm of _getitem_batch_size "
+    "computes the eager arm's length for every slice; for ALL key objects the Python-branch unravel functions equal the native ones and equal the in-order "
+    "fringe on well-formed keys (unravel_keys: refuted, the two paths differ on every accepted input — finding D1804 — with a partial theorem); both "
+    "_parse_batch_size branches and both key-aligned list branches agree on every input; names handling of __init__ / _new_unsafe / the names setter "
+    "(refuted + partial: names are dropped under compile, finding D1801); the memo tables behind _is_tensor_collection / _is_tensorclass / "
+    "_pass_through_cls / _is_non_tensor return equal values for any eager/compile interleaving from coherent tables; the key sets of the Sequential "
+    "forward arms are permutations of each other. EVERY site of the library that tests is_compiling() (46, plus 6 that receive the flag as a keyword) is "
+    "re-translated from the source on every run by a partial-evaluation translator (the function specialised with the flag True and False, dead code "
+    "pruned, bookkeeping tokens dropped by a Coq-side allow-list) and classified by finite theorems: 20 are checked pure guards (both specialisations "
+    "compute the same token stream), 17 are dual sites modelled with theorems, 15 are dual sites listed by name as unmodelled. Tie: extracted model vs "
+    "/repo on exhaustive small grids through both real code paths (C++ helper rebuilt from csrc; compile branch forced); a forced-branch differential "
+    "runs hundreds of generated programs eagerly with the flag forced True vs False in every module and records which sites were reached (33 of 46 per "
+    "quick run, histogram in the evidence). Partial: eager-vs-torch.compile program equivalence under dynamo is established by differential runs only.")
+CHECKS["C18"]["note"] = COMMON_NOTE + ("Dynamo tracing is not modelled; torch.compile backends eager/aot_eager stand for compiled execution. The 15 unmodelled dual "
+                                       "sites (tensorclass wrappers, nn module __getattr__, consolidate, _parse_to, to_module plumbing) are covered only by the "
+                                       "forced-branch and the real-compile differentials. Known findings in findings.d/C18.json.")
+CHECKS["C18"]["technique"] = ("Coq theorems (induction on key trees, lia on slice arithmetic, memo-table invariant) + partial-evaluation site-shape translator with "
+                              "finite classification theorems + forced-branch program differential with per-site hit histogram + extracted-model correspondence")
+CHECKS["C04"]["technique"] = "Coq refinement proof (induction over op lists with a unique-keys invariant; member-wise delegation for lazy stacks) + step-wise extracted-model differential + nested-dict oracle"
+CHECKS["C10"]["technique"] = "Coq theorems (codec round trip by tree induction; order-freedom by induction over Permutation; failure propagation under collected = spawned) + permuting-executor, fault-injection and process-level differential runs"
